@@ -123,4 +123,6 @@ Definition run (name : string) (a : sx) : sx :=
   else if is "c11.csend" then H11.run_csend a
   else if is "c11.conc" then H11.run_conc a
   else if is "c11.stress" then H11.run_stress a
+  else if is "c16.htx" then H16.run_htx a
+  else if is "c16.hmsg" then H16.run_hmsg a
   else sx_err "unknown case kind".
